@@ -28,7 +28,8 @@ from twisted.internet.testing import StringTransport
 from zope.interface import implementer
 
 STREAMS = ['lines-exhaustive', 'lines-random', 'lines-malformed', 'cookie-env', 'handshake-spec-server']
-THEOREMS = ['begin_only_after_ok', 'authenticated_iff_begin', 'mechanisms_once_in_order', 'no_stall',
+THEOREMS = ['begin_only_after_ok', 'begin_only_after_ok_of_current_mechanism', 'authenticated_iff_begin',
+            'mechanisms_once_in_order', 'no_stall', 'no_stall_run',
             'exhaustion_closes', 'unknown_line_closes', 'silent_after_close',
             'completes_against_spec_server']
 TRUSTED_BASE = [
@@ -132,7 +133,7 @@ class World:
         self.authentication, self.client, self.protocol = authentication, client, protocol
         world = self
 
-        class LoggingAuth(authentication.ClientAuthenticator):
+        class ClientAuthenticator(authentication.ClientAuthenticator):   # same name: exception texts mention it
             def beginAuthentication(self, proto):
                 proto._vauth = self
                 return super().beginAuthentication(proto)
@@ -142,7 +143,7 @@ class World:
                 return super().handleAuthMessage(line)
 
         class Conn(client.DBusClientConnection):
-            authenticator = LoggingAuth
+            authenticator = ClientAuthenticator
 
             def connectionAuthenticated(self):
                 self._vlog.append(('A',))
@@ -291,11 +292,9 @@ class Session:
             buf, binary = b'', b''.join(p._vraw) + p._buffer
         else:
             buf, binary = p._buffer, b''
-        mech = getattr(a, 'authMech', None)
-        guid = getattr(a, 'guid', None)
-        return ('auth=%d disc=%d buffer=%s binary=%s mech=%s left=%d guid=%s'
+        guid = a.getGUID() if a is not None else None
+        return ('auth=%d disc=%d buffer=%s binary=%s guid=%s'
                 % (authed, bool(self.t.disconnecting), hx(buf), hx(binary),
-                   'none' if mech is None else hx(mech), len(a.authOrder),
                    'none' if guid is None else hx(guid)))
 
     def canonical(self):
@@ -341,6 +340,7 @@ def monitor(world, unix, evs, binary_writes, bad, authed_flag):
                     'an exception other than the documented ones escapes dataReceived: %s'
                     % [e for e in evs if e.startswith('X:')][0]))
     ok_seen = neg_after_ok = fd_answer = False
+    ok_ever = False
     auth_sent = []
     begins = 0
     closed = False
@@ -350,7 +350,7 @@ def monitor(world, unix, evs, binary_writes, bad, authed_flag):
         if k == 'R':
             cmd, args = split_cmd(line)
             if cmd == b'OK' and valid_guid(args):
-                ok_seen = True
+                ok_seen = ok_ever = True
             if cmd in (b'AGREE_UNIX_FD', b'ERROR') and neg_after_ok:
                 fd_answer = True
             last_r = (cmd, args)
@@ -389,12 +389,18 @@ def monitor(world, unix, evs, binary_writes, bad, authed_flag):
             cmd, args = split_cmd(line)
             if cmd == b'AUTH':
                 auth_sent.append(args.split(b' ')[0] if args else b'')
+                # a new mechanism is offered: an earlier OK (and negotiation) no longer counts
+                ok_seen = neg_after_ok = fd_answer = False
             if cmd == b'NEGOTIATE_UNIX_FD' and ok_seen:
                 neg_after_ok = True
             if line == b'BEGIN':
                 begins += 1
                 if not ok_seen:
-                    if last_r and last_r[0] == b'AGREE_UNIX_FD':
+                    if ok_ever:
+                        out.append(('begin-after-ok-of-abandoned-mechanism',
+                                    'BEGIN is sent on the strength of an OK that was followed by another AUTH '
+                                    '(the server has not accepted the mechanism in progress)'))
+                    elif last_r and last_r[0] == b'AGREE_UNIX_FD':
                         out.append(('agree-unix-fd-before-ok-begins',
                                     'AGREE_UNIX_FD without a preceding OK makes the client send BEGIN'))
                     else:
@@ -924,7 +930,7 @@ def _run(ctx, world, envs, tmp):
     ctx.note('lines-exhaustive: every sequence of up to %d lines over %d line classes, both transport kinds '
              '(not extended after close/authentication)' % (depth, len(BASE_ALPHABET)))
     # the same sequences under random splittings (a sample)
-    k = ctx.scale(quick=2500, thorough=40000)
+    k = ctx.scale(quick=6000, thorough=60000)
     sample = [cases[rng.randrange(len(cases))] for _ in range(k)]
     resplit = []
     for c in sample:
@@ -933,12 +939,12 @@ def _run(ctx, world, envs, tmp):
     batch(ctx, world, 'lines-random', resplit, envs)
 
     # 2. random longer conversations over the rich alphabet, random environments, random reads
-    n = ctx.scale(quick=6000, thorough=120000)
+    n = ctx.scale(quick=16000, thorough=200000)
     batch(ctx, world, 'lines-random',
           [random_lines_case(rng, envs, RICH_ALPHABET, 12, env_names) for _ in range(n)], envs)
 
     # 3. malformed: bytes outside UTF-8, lines around the 16 KiB limit, lone CR / LF, garbage
-    n = ctx.scale(quick=400, thorough=6000)
+    n = ctx.scale(quick=1200, thorough=10000)
     mal = []
     for _ in range(n):
         kind = rng.randrange(4)
